@@ -616,6 +616,14 @@ func runCase(run *vf.Run, raw json.RawMessage, dir string) *vf.Result {
 				break
 			}
 		}
+		switch {
+		case strings.Contains(interrupted, "bump litestream seq"):
+			res.Count("databases_with_checkpoint_failed_at_seq_bump", 1)
+		case interrupted != "":
+			res.Count("databases_with_checkpoint_interrupted_elsewhere", 1)
+		default:
+			res.Count("databases_without_interrupted_checkpoint", 1)
+		}
 		postRun(res, mf, dir, cp, resets, interrupted, rc(mf.Name))
 		distinctK += res.Counters["distinct_k_"+mf.Name] - before
 		if res.HarnessErr != "" {
